@@ -44,6 +44,8 @@ from .model import Repo
 FuncNode = (ast.FunctionDef, ast.AsyncFunctionDef)
 LOOPS = (ast.While, ast.For, ast.AsyncFor)
 PURE_CALL_METHODS = (set(PURE_METHODS) - {"result", "exception", "time", "index", "find", "count", "decode", "encode", "split", "copy"}) | {"total_seconds"}
+MUTATORS = {"pop", "popleft", "popitem", "append", "appendleft", "add", "remove", "discard", "clear", "update", "extend", "insert", "send", "throw",
+            "set_result", "set_exception", "cancel", "heappop", "heappush"}
 PURE_CALL_FUNCS = {"isinstance", "len", "bool", "callable", "hasattr", "is_future", "isawaitable", "issubclass"}
 
 
@@ -418,7 +420,10 @@ def _pass_copy_prop(fn) -> bool:
         elif pure and has_call:
             ok = all(in_next_stmt_head(u) for u in own)
         else:
-            ok = len(own) == 1 and not nested and in_next_stmt_head(own[0])
+            # N3: an argument temporary.  Results of state-changing container/future operations keep their name
+            # (the rules identify "the element just popped" by that name)
+            mut = any(isinstance(n, ast.Call) and isinstance(n.func, ast.Attribute) and n.func.attr in MUTATORS for n in ast.walk(E))
+            ok = len(own) == 1 and not nested and not mut and in_next_stmt_head(own[0])
         if not ok:
             continue
         _replace(fn, own, E)
